@@ -317,9 +317,83 @@ fn sizes_script(seed: u64, policy: &str) -> Script {
     }
 }
 
+/// Runs of zero-length records at the head, in the middle and at the tail of a queue, with
+/// truncations that evict exactly a run of them, part of one, or a run plus one real record
+/// (per-record bookkeeping that is not tied to payload bytes).
+fn empties_script(seed: u64, policy: &str) -> Script {
+    let mut rng = Rng(seed.wrapping_mul(0xE3_7713).wrapping_add(11));
+    let mut steps = vec![Step::Create { q: 0 }, Step::Create { q: 1 }];
+    let mut payload_seed = seed << 20;
+    let mut next = [0u64, 0u64];
+    let mut first = [0u64, 0u64];
+    for round in 0..6 + rng.below(6) {
+        let q = (round % 2) as usize;
+        let empties = 1 + rng.below(6);
+        let reals = rng.below(3);
+        let mut lens: Vec<usize> = Vec::new();
+        let order = rng.below(3);
+        for _ in 0..empties {
+            lens.push(0);
+        }
+        for _ in 0..reals {
+            lens.push(1 + rng.below(300) as usize);
+        }
+        if order == 1 {
+            lens.reverse();
+        } else if order == 2 && lens.len() > 2 {
+            let last_idx = lens.len() - 1;
+            lens.swap(0, last_idx);
+        }
+        let run_start = next[q];
+        if rng.chance(50) {
+            let batch: Vec<Payload> = lens
+                .iter()
+                .map(|len| {
+                    payload_seed += 1;
+                    Payload { seed: payload_seed, len: *len, embed: None }
+                })
+                .collect();
+            next[q] += batch.len() as u64;
+            steps.push(Step::Append { q, pos: None, batch });
+        } else {
+            for len in &lens {
+                payload_seed += 1;
+                steps.push(Step::Append { q, pos: None, batch: vec![Payload { seed: payload_seed, len: *len, embed: None }] });
+                next[q] += 1;
+            }
+        }
+        // a truncation aimed at the run just written or at the head of the queue
+        if next[q] > first[q] && rng.chance(80) {
+            let p = match rng.below(4) {
+                0 => first[q],                                    // the first retained record only
+                1 => run_start.saturating_sub(1).max(first[q]),   // everything before the run
+                2 => (run_start + empties - 1).min(next[q] - 1),  // up to the end of the empties (if they lead)
+                _ => first[q] + rng.below(next[q] - first[q]),
+            };
+            steps.push(Step::Truncate { q, p });
+            first[q] = first[q].max(p + 1);
+        }
+        if rng.chance(20) {
+            steps.push(Step::Restart);
+        }
+    }
+    steps.push(Step::Restart);
+    Script {
+        name: format!("empties-{seed}"),
+        policy: policy.to_string(),
+        queues: vec!["e".to_string(), format!("é{}", rng.below(10))],
+        anchors: anchors(),
+        steps,
+        expect: None,
+    }
+}
+
 pub fn generate(profile_name: &str, seed: u64, policy: &str) -> Script {
     if profile_name == "sizes" {
         return sizes_script(seed, policy);
+    }
+    if profile_name == "empties" {
+        return empties_script(seed, policy);
     }
     let prof = profile(profile_name);
     let mut rng = Rng(seed.wrapping_mul(0x9E37_79B9).wrapping_add(0xABCD));
